@@ -131,6 +131,8 @@ def impl_run(case):
                 out.append({"k": kk, "exc": "ValueError", "calls": [list(x) for x in rec]})
         rb = [len(r.randbytes(n)) == n for n in (0, 1, 7, 64)]
         rb += [len(r.randbytes(n)) == n for _ in range(1500) for n in (1, 2, 5)]     # leading zero bytes happen once in 256
+        rb += [len(r.randbytes(n)) == n for n in (65535, 65536, 65537, 100000, 131072, 200001)]
+        rb += [0 <= r.getrandbits(k) < 2 ** k for k in (524288, 524289, 800000)]
         rnd = [0.0 <= r.random() < 1.0 for _ in range(50)]
         return {"bits": out, "randbytes_ok": all(rb), "random_ok": all(rnd)}
     mk = (lambda s: rng.PCG64DXSMRandom(s)) if case["impl"] == "numpy" else (lambda s: random.Random(s))
